@@ -1,4 +1,4 @@
-import MG.Core.Engine
+import MG.Proofs.Lemmas.Heap
 import MG.Proofs.Lemmas.Adjoint
 import Mathlib.Algebra.Group.Pi.Basic
 /-!
@@ -41,32 +41,6 @@ def absG (gr : GMap) : Nat → GF := fun t =>
 /-- every stored gradient is an array of its tensor's shape -/
 def WFG (h : Heap) (gr : GMap) : Prop :=
   ∀ t v, lookup t gr = some v → v.1 = shapeOf h t ∧ v.2.length = size (shapeOf h t)
-
-/-! ### assoc lists -/
-
-theorem lookup_insert_self {α} (k : Nat) (v : α) (l : List (Nat × α)) :
-    lookup k (insert k v l) = some v := by
-  induction l with
-  | nil => simp [insert, lookup]
-  | cons p l ih =>
-    obtain ⟨k', v'⟩ := p
-    by_cases hk : k' = k
-    · simp [insert, lookup, hk]
-    · simp [insert, lookup, hk, ih]
-
-theorem lookup_insert_ne {α} (k k' : Nat) (v : α) (l : List (Nat × α)) (hne : k' ≠ k) :
-    lookup k' (insert k v l) = lookup k' l := by
-  induction l with
-  | nil => simp [insert, lookup, Ne.symm hne]
-  | cons p l ih =>
-    obtain ⟨k'', v''⟩ := p
-    by_cases hk : k'' = k
-    · subst hk
-      simp [insert, lookup, Ne.symm hne]
-    · by_cases hk2 : k'' = k'
-      · subst hk2
-        simp [insert, lookup, hk]
-      · simp [insert, lookup, hk, hk2, ih]
 
 /-! ### arrays as functions -/
 
